@@ -481,10 +481,19 @@ func ruleM2(c *Ctx) {
 		case !s.guard:
 			c.viol(key, pos, "itercount is changed without a dominating !frozen test of the same object (a frozen, shared value would be written)")
 		default:
+			// a store inside a private helper stands for each of the helper's call sites
+			weight := 1
+			if s.fn.Parent() == nil && s.fn.Name() != "Done" && s.fn.Object() != nil && !s.fn.Object().Exported() {
+				if k := len(callersInPkg(c.P.Funcs, s.fn)); k > 0 && !strings.HasPrefix(strings.ToLower(s.fn.Name()), "iterate") {
+					if _, isIterRes := iterResult(s.fn); !isIterRes {
+						weight = k
+					}
+				}
+			}
 			if s.delta > 0 {
-				inc[s.owner]++
+				inc[s.owner] += weight
 			} else {
-				dec[s.owner]++
+				dec[s.owner] += weight
 			}
 			c.ok(key, pos, "guarded by !frozen")
 		}
@@ -857,4 +866,15 @@ func ruleM3(c *Ctx) {
 	if n < 2 {
 		c.anchorFail("only %d callback-driven walks found", n)
 	}
+}
+
+// iterResult: does fn return an Iterator (an Iterate-like function, which is itself the acquisition)?
+func iterResult(fn *ssa.Function) (types.Type, bool) {
+	res := fn.Signature.Results()
+	for i := 0; i < res.Len(); i++ {
+		if _, n := namedOf(res.At(i).Type()); n == "Iterator" || strings.HasSuffix(n, "Iterator") {
+			return res.At(i).Type(), true
+		}
+	}
+	return nil, false
 }
